@@ -75,7 +75,15 @@ func VerifC12Match() {
 	want := c12Ref(s, pattern)
 	nd.Cover("compared")
 	if nd.Known("C12-literal-tail-not-anchored") && pattern[len(pattern)-1] != "*" && !want {
-		// recorded finding: after the last literal the rest of the name is ignored
+		// recorded finding: after the last literal the rest of the name is ignored, i.e. the
+		// pattern is matched against a prefix of the name; exactly that verdict is tolerated
+		prefix := false
+		for k := 0; k <= len(s); k++ {
+			if c12Ref(s[:k], pattern) {
+				prefix = true
+			}
+		}
+		nd.Assert(got == prefix, "matchPattern agrees with case-insensitive glob matching of the whole name (or, per the recorded finding, of a prefix of it)")
 		return
 	}
 	nd.Assert(got == want, "matchPattern agrees with case-insensitive glob matching of the whole name")
